@@ -304,7 +304,7 @@ theorem C18_tree1_invariant (E : Env α) (c : FCtx α) (rl : Int) (j : Nat) (see
       ∀ r ∈ out, r ∈ t'.allRows ∧ Outside (rootIv t') (c.value r j) := by
   simp only [Option.bind_eq_some_iff] at h
   obtain ⟨t, hb, hp⟩ := h
-  obtain ⟨hT, hperm, hsn, hcomb⟩ := C18_tree_invariant E c rl [j] seed [] [iv] rfl subsOK_nil hn t hb
+  obtain ⟨hT, hperm, hsn, hcomb⟩ := C18_tree_invariant E c rl [j] seed [] [iv] rfl (subsOK_nil (by simp)) hn t hb
   have hroot : rootIv t = iv := by unfold rootIv; rw [hsn]; rfl
   obtain ⟨out, hTO, hp', hc', hnest, _, hout⟩ := pushDown_inv E c [iv] 4000 t t' hT (by rw [hcomb]; rfl)
     (hperm.nodup_iff.mpr List.nodup_range) (by rw [hroot]; exact hiv) hp
@@ -425,7 +425,7 @@ theorem C18_forest_tree (E : Env α) (inp : ForestIn α) (F : Forest α) (hinit 
                 have hl : 1 ≤ (comb.eraseIdx (comb.length - 1 - i)).length := by
                   rw [List.length_eraseIdx]; split_ifs <;> omega
                 exact ⟨hi', (IH _ _ hl this).1⟩
-            constructor
+            refine ⟨?_, ?_, fun _ => by simp [hlenS]⟩
             · intro i s hi
               obtain ⟨hi', hc, hs, _⟩ := each i s hi
               refine ⟨hi', hc, ?_⟩
@@ -448,17 +448,18 @@ theorem C18_subnodes_are_projections (E : Env α) (c : FCtx α) (root : List (Iv
   cases this with
   | leaf _ d subs rows hN =>
     obtain ⟨h1, h2, h3⟩ := hN.subsOK.1 k s hk
-    exact ⟨h1, h2, h3, hN.subsOK.2 k s hk⟩
+    exact ⟨h1, h2, h3, hN.subsOK.2.1 k s hk⟩
   | branch _ d subs ch hN hB hC =>
     obtain ⟨h1, h2, h3⟩ := hN.subsOK.1 k s hk
-    exact ⟨h1, h2, h3, hN.subsOK.2 k s hk⟩
+    exact ⟨h1, h2, h3, hN.subsOK.2.1 k s hk⟩
 
 /-- Non-vacuity of the invariant's premises: the root leaf `Forest` starts from satisfies `TInv`, and every row may be
 handed to a root (so `C18_add_row_invariant` applies to the first insertion, and by its conclusion to every later one). -/
-example (E : Env α) (c : FCtx α) (comb : List Nat) (seed : UInt64) (snapped : List (Ival α)) (hlen : snapped.length = comb.length) :
+example (E : Env α) (c : FCtx α) (comb : List Nat) (seed : UInt64) (snapped : List (Ival α)) (hlen : snapped.length = comb.length)
+    (h1 : comb.length ≤ 1) :
     TInv E c snapped (mkLeaf E c comb [] seed [] snapped 0) ∧
     ∀ row, RowInside c snapped (mkLeaf E c comb [] seed [] snapped 0).data row :=
-  ⟨mkLeaf_ok E c snapped comb [] seed [] snapped 0 hlen (fun j _ hv => ⟨hv.1, hv.2, fun _ => rfl⟩) subsOK_nil,
+  ⟨mkLeaf_ok E c snapped comb [] seed [] snapped 0 hlen (fun j _ hv => ⟨hv.1, hv.2, fun _ => rfl⟩) (subsOK_nil h1),
    fun row => rowInside_root c _ row⟩
 
 /-- Non-vacuity: the range `[0,4)` over ℚ is proper and `3` lies in it, routed to the upper half `[2,4)`. -/
